@@ -68,7 +68,9 @@ func ReadFrom(f io.Reader, opts ...ReadOption) (*SMF, error) {
 		return nil, ErrMissing
 	}
 
-	if err == ErrFinished || err == io.EOF {
+	// ErrFinished is the reader's own signal only if the reader is done: the same value coming
+	// from a failing source must not be taken for the end of the file
+	if (err == ErrFinished && rd.isDone) || err == io.EOF {
 		return rd.SMF, nil
 	}
 
